@@ -133,8 +133,6 @@ type instance struct {
 	delivered bool
 }
 
-// number of failing counter reads served so far (all cases of this process): odd ones answer -1, nil
-var revFails int64
 var readFails int64
 
 type harness struct {
@@ -409,12 +407,12 @@ func (in *instance) SectorSize() (int64, error)   { return 4096, nil }
 func (in *instance) RemainSnapshots() (int, error) { return 100, nil }
 func (in *instance) GetRevisionCounter() (int64, error) {
 	defer in.lock()()
+	if in.h.flt(in.rep.a, "revneg") {
+		// backend/remote reports a counter the replica could not read as -1 with a nil error (used on verify
+		// requests only, where the controller treats it like an error)
+		return -1, nil
+	}
 	if in.h.flt(in.rep.a, "rev") {
-		// backend/remote reports a counter it could not read either as an error or as -1 with a nil error
-		// (the replica's own answer to a failed read of its counter block): alternate between the two
-		if atomic.AddInt64(&revFails, 1)%2 == 1 {
-			return -1, nil
-		}
 		return 0, errors.New("rev failed")
 	}
 	return in.rep.rev, nil
